@@ -7,7 +7,7 @@
    returns the same element for every way of splitting the index range.
    Not expressible: machine-level data races, the hand-written unsafe impl Sync, rayon's scheduler. *)
 From Coq Require Import ZArith NArith List Bool Reals Floats String. Import ListNotations.
-From PV Require Import Num NumR model.Tables model.Spec model.Geom model.Optimiser model.OptSpec model.Pipeline model.Svg model.Json gen.GenTables gen.GenSchema proofs.OptStruct proofs.OptLoop proofs.LatticeFacts proofs.TablesFacts proofs.PipelineFacts proofs.OutputFacts.
+From PV Require Import Num NumR model.Tables model.Spec model.Geom model.Optimiser model.OptSpec model.Pipeline model.Svg model.Json gen.GenTables gen.GenSchema proofs.OptStruct proofs.OptLoop proofs.LatticeFacts proofs.TablesFacts proofs.PipelineFacts proofs.OutputFacts proofs.FloatFacts proofs.OrderFacts.
 
 Theorem C09_run_writes_only_own_cells :
   forall (NN : Num) (fexp : carrier NN -> carrier NN) (score : N -> list (carrier NN) -> option
@@ -45,4 +45,21 @@ Theorem C09_fin_frozen :
     score c st d = st.
 Proof. exact OptStruct.C06_fin_frozen. Qed.
 Print Assumptions C09_fin_frozen.
+
+Theorem C09_float_reduction_tree_independent :
+  forall (X : Type) (t : tree (scored X)), best (scored X) sleb (flatten (scored X) t) = Some (reduce
+    (scored X) sleb t).
+Proof. exact (@float_reduction_tree_independent). Qed.
+Print Assumptions C09_float_reduction_tree_independent.
+
+Theorem C09_max_is_max2 :
+  forall (X : Type) (a b : scored X), max_keeps_first NumF (Some (sc_score a)) (Some (sc_score b)) = negb
+    (sleb a b).
+Proof. exact (@max_is_max2). Qed.
+Print Assumptions C09_max_is_max2.
+
+Theorem C09_cmp_defined :
+  forall (X : Type) (a b : scored X), score_cmp NumF (Some (sc_score a)) (Some (sc_score b)) <> None.
+Proof. exact (@cmp_defined). Qed.
+Print Assumptions C09_cmp_defined.
 
